@@ -156,6 +156,20 @@ HEX_TASKS[H + "reading_as_list"] = dict(builder=hexital_member_builder, contract
     },
     result_type="None", props=["C20", "C19"], use_at_calls=False, pure=True))
 
+def hexital_candles_builder(tf):
+    inner = hexital_builder([])
+
+    def build(ex, st):
+        for st1, args, kwargs, env in inner(ex, st):
+            yield st1, [args[0], tf], {}, dict(env, timeframe=tf)
+    return build
+
+
+for _tf, _want in ((None, "base"), ("T5", "t5"), ("T3", "base")):
+    HEX_TASKS[H + f"candles#{_tf}"] = dict(qualname=H + "candles", builder=hexital_candles_builder(_tf), contract=Contract(
+        H + "candles", ensures={"the-candles-of-the-named-manager-else-the-base-candles": f"result is {_want}"},
+        result_type="None", props=["C19", "C20"], use_at_calls=False, pure=True))
+
 CONTRACTS += [
     Contract(I + "__str__", types={"self": "indicator"}, ensures={"is-a-string": "isinstance_str(result)"}, result_type="None",
              props=["C19"], use_at_calls=False, pure=True),
@@ -331,6 +345,30 @@ HEX_TASKS[H + "remove_indicator"] = dict(builder=remove_builder, natives={I + "p
         "other-member-untouched": "i2.touched == False and i2._candles is m1",
         "every-manager-stays-registered": "LenOf(self._candles) == 2 and self._candles['default'] is m0 and self._candles['T5'] is m1",
     }, result_type="None", props=["C13", "C14", "C08"], use_at_calls=False))
+
+
+# ... with concrete names: a member whose NAME or INPUT merely starts with the given name is not selected ("SMA_2" vs "SMA_20")
+def hexital_ops_named_builder(ex, st):
+    from hexvc.state import DictP, ListP, ObjP
+    src = ex.ctx.source
+    hcls = src.module("hexital.core.hexital").classes["Hexital"]
+    icls = src.module("hexital.indicators.ema").classes["EMA"]
+    mcls = src.module("hexital.core.candle_manager").classes["CandleManager"]
+    for c in (hcls, icls, mcls):
+        src.resolve_class_bases(c)
+    m0 = st.alloc(ObjP(mcls, {"candles": st.alloc(ListP([])), "timeframe": None, "timeframe_fill": False, "candles_lifespan": None, "candlestick_type": None}))
+    mki = lambda nm, inp: st.alloc(ObjP(icls, {"_output_name": nm, "input_value": inp, "touched": False}))
+    i1, i2, i3 = mki("SMA_2", "close"), mki("SMA_20", "close"), mki("EMA_5", "SMA_20")
+    h = st.alloc(ObjP(hcls, {"name": "hex", "_candles": st.alloc(DictP({"default": m0})),
+                             "_indicators": st.alloc(DictP({"SMA_2": i1, "SMA_20": i2, "EMA_5": i3}))}))
+    yield st, [h, "SMA_2"], {}, {"self": h, "name": "SMA_2", "i1": i1, "i2": i2, "i3": i3}
+
+
+for _op in ("purge", "calculate", "recalculate"):
+    HEX_TASKS[H + _op + "#similar-names"] = dict(
+        qualname=H + _op, builder=hexital_ops_named_builder, natives=OPS_NATIVES,
+        contract=Contract(H + _op, ensures={"only-the-named-member": "i1.touched == True and i2.touched == False and i3.touched == False"},
+                          result_type="None", props=["C13", "C14"], use_at_calls=False))
 
 
 # ... and without a name every member is reached through its OWN operation (which removes / computes exactly that member's
